@@ -1108,12 +1108,13 @@ pub extern "C" fn recv_time_limit(fd: c_int) -> u64 {
 }
 
 pub(crate) fn get_time_limit(tv: &libc::timeval) -> u64 {
+    // a negative value accepted by the kernel means "no timeout", never panic on it
     let mut time_limit = u64::try_from(tv.tv_sec)
-        .expect("overflow")
+        .unwrap_or(0)
         .saturating_mul(1_000_000_000)
         .saturating_add(
             u64::try_from(tv.tv_usec)
-                .expect("overflow")
+                .unwrap_or(0)
                 .saturating_mul(1_000),
         );
     if 0 == time_limit {
